@@ -492,7 +492,7 @@ def run(tier):
             acc = False
         recs.append({"e": "prog", "base": base, "class": cls, "p": slim(P, lib, unit), "accepted": acc, "cli": c})
         meta.append(i)
-    res, st = validate_monitor("StaticTrace", "t.cfg", ["static"], recs, procs=14, sets=("bad", "basebad", "dropped"), extra_files={"t.cfg": T_CFG}, is_start=lambda r: True, timeout=3000)
+    res, st = validate_monitor("StaticTrace", "t.cfg", ["static", "syntax"], recs, procs=14, sets=("bad", "basebad", "dropped"), extra_files={"t.cfg": T_CFG}, is_start=lambda r: True, timeout=3000)
     ck.cov["states"] = st["distinct"]; ck.cov["transitions"] = st["generated"]
     ck.cov["tlc_runs"].append(dict(name="StaticTrace", lines=st["lines"], wall_s=round(st["wall"], 1)))
     if res["basebad"]:
